@@ -113,7 +113,9 @@ class Session:
                 ctx.count("requests_compared")
             ct = dict(req["headers"]).get("Content-Type")
             is_json = False
-            if ct == JSON_CT and req["body"]:
+            # raw put()/post() bodies are caller-chosen bytes (they may even happen to parse as JSON, e.g. b"9\t"):
+            # only bodies serialised by the library itself are scanned for insignificant whitespace
+            if ct == JSON_CT and req["body"] and not name.startswith(("put(", "post(", "post-json-ct(")):
                 try:
                     json.loads(req["body"].decode("utf-8"))
                     is_json = True
